@@ -22,7 +22,8 @@ pub struct RawTx {
 	pub ins: Vec<u16>,
 	pub outs: Vec<RawOut>,
 	pub fee: u8,
-	/// 0 plain, 1 two plain kernels, 2 height-locked (already reached), 3 three kernels mixed
+	/// 0 plain, 1 two plain kernels, 2 height-locked (already reached), 3 three kernels mixed,
+	/// 4 height-locked one block ahead (invalid), 5..=10 NRD with shared excess tags
 	pub kern: u8,
 	pub zero_offset: bool,
 	/// additionally spend the first output of the previous tx of this block (cut-through)
@@ -164,6 +165,8 @@ pub struct Built {
 	pub n_spends: usize,
 	pub recreated: bool,
 	pub cut_through: bool,
+	/// boundary tags for C13: cb:T-1 / cb:T / cb:T+1, lock:.., nrd:..
+	pub tags: Vec<String>,
 }
 
 pub struct World {
@@ -297,6 +300,22 @@ impl World {
 						shift: 0,
 						lock: height.saturating_sub((rt.fee % 3) as u64),
 						excess_tag: 0,
+					}],
+					// 4: height-locked one block in the future (must be refused)
+					4 => vec![KernelSpec {
+						kind: KKind::HeightLocked,
+						fee: f,
+						shift: 0,
+						lock: height + 1,
+						excess_tag: 0,
+					}],
+					// 5..=10: NRD kernels sharing their excess through a tag (two tags, relative heights 1..3)
+					5..=10 => vec![KernelSpec {
+						kind: KKind::Nrd,
+						fee: f,
+						shift: 0,
+						lock: 1 + ((rt.kern - 5) % 3) as u64,
+						excess_tag: 1 + ((rt.kern - 5) / 3) as u32,
 					}],
 					3 => vec![
 						KernelSpec::plain(f),
@@ -614,7 +633,45 @@ impl World {
 			eprintln!("seal {:.1}ms nonce {}", t0.elapsed().as_secs_f64() * 1e3, b.header.pow.nonce);
 		}
 		let n_spends = b.inputs().len();
+		// boundary tags (distance of each time-locked element to its threshold)
+		let mut tags = vec![];
+		let maturity = global::coinbase_maturity();
+		let tag = |d: i64| match d {
+			-1 => "T-1".to_string(),
+			0 => "T".to_string(),
+			1 => "T+1".to_string(),
+			x if x < -1 => "early".to_string(),
+			_ => "late".to_string(),
+		};
+		for sp in &specs {
+			for i in &sp.inputs {
+				if i.cb {
+					if let Some(e) = pnode.model.utxo.get(&LIB.commit(i).0.to_vec()) {
+						tags.push(format!("cb:{}", tag(height as i64 - (e.height + maturity) as i64)));
+					} else {
+						tags.push("cb:absent-on-this-fork".to_string());
+					}
+				}
+			}
+			for k in &sp.kernels {
+				match k.kind {
+					KKind::HeightLocked => tags.push(format!("lock:{}", tag(height as i64 - k.lock as i64))),
+					KKind::Nrd => {
+						let ex = sign_kernel(k.features(), &scalar_from(format!("tag{}", k.excess_tag).as_bytes())).excess.0.to_vec();
+						if height < 9 {
+							tags.push("nrd:pre-hf3".to_string());
+						} else if let Some((_, ph)) = pnode.model.nrd.iter().rev().find(|(e, _)| *e == ex) {
+							tags.push(format!("nrd:{}", tag(height as i64 - (*ph + k.lock) as i64)));
+						} else {
+							tags.push("nrd:first-on-this-fork".to_string());
+						}
+					}
+					KKind::Plain => {}
+				}
+			}
+		}
 		Ok(Built {
+			tags,
 			block: b,
 			parent,
 			verdict,
